@@ -26,8 +26,10 @@ MML == "http://www.w3.org/1998/Math/MathML"
 MathOpen == "{LT}math xmlns={QUOT}" \o MML \o "{QUOT} xmlns:cellml={QUOT}http://www.cellml.org/cellml/2.0#{QUOT}{GT}"
 Cn(v, u) == "{LT}cn cellml:units={QUOT}" \o u \o "{QUOT}{GT}" \o v \o "{LT}/cn{GT}"
 Ci(x) == "{LT}ci{GT}" \o x \o "{LT}/ci{GT}"
-EqMath(x, rhs) == MathOpen \o "{LT}apply{GT}{LT}eq/{GT}" \o Ci(x) \o rhs \o "{LT}/apply{GT}{LT}/math{GT}"
-ValMath(rhs) == MathOpen \o rhs \o "{LT}/math{GT}"
+MathOpenBare == "{LT}math xmlns={QUOT}" \o MML \o "{QUOT}{GT}"          \* without the (possibly unused) cellml prefix declaration
+MOpen(fv) == IF fv.mathNs = "bare" THEN MathOpenBare ELSE MathOpen
+EqMath(fv, x, rhs) == MOpen(fv) \o "{LT}apply{GT}{LT}eq/{GT}" \o Ci(x) \o rhs \o "{LT}/apply{GT}{LT}/math{GT}"
+ValMath(fv, rhs) == MOpen(fv) \o rhs \o "{LT}/math{GT}"
 
 Var(n, id, units, init, iface) == [name |-> n, id |-> id, units |-> units, init |-> init, iface |-> iface]
 Unit(ref, prefix, exp, mult, id) == [ref |-> ref, prefix |-> prefix, exp |-> exp, mult |-> mult, id |-> id]
@@ -35,7 +37,8 @@ Unit(ref, prefix, exp, mult, id) == [ref |-> ref, prefix |-> prefix, exp |-> exp
 \* ------------------------------------------------------------------ feature vectors
 \* fv: [site, cls, ids, prefix, exp, mult, depth, nmaps, mapIds, connId, pairs, reset, imports]
 FV0 == [site |-> "none", cls |-> "plain", ids |-> FALSE, prefix |-> NoneS, exp |-> "1", mult |-> "1", depth |-> 2,
-        nmaps |-> 1, mapIds |-> FALSE, connId |-> FALSE, pairs |-> 1, reset |-> "none", imports |-> "none", twin |-> FALSE]
+        nmaps |-> 1, mapIds |-> FALSE, connId |-> FALSE, pairs |-> 1, reset |-> "none", imports |-> "none", twin |-> FALSE,
+        mathNs |-> "decl"]   \* "bare": math written without the xmlns:cellml declaration (not varied: used by C14's expectation)
 Dims == [site |-> Sites, cls |-> Classes, ids |-> BOOLEAN, prefix |-> {NoneS, "milli", "3", "-2"}, exp |-> {"1", "2", "-1", "0.5"},
          mult |-> {"1", "1000", "0.001", "2.5"}, depth |-> 1..3, nmaps |-> 0..3, mapIds |-> BOOLEAN, connId |-> BOOLEAN, pairs |-> 1..3,
          reset |-> {"none", "ordered", "unordered", "two"}, imports |-> {"none", "units", "comp", "both", "twoSources"},
@@ -69,8 +72,8 @@ VarsOf(c, fv) ==
       Var("z", NoneS, "second", "0", "public")>>
 ResetRec(order, fv, k) ==
     [order |-> order, id |-> Id("rid" \o k, "resetId", fv), var |-> St("x", "varName", fv), tvar |-> "y",
-     tv |-> ValMath(Cn("3", "dimensionless")), tvid |-> Id("tvid" \o k, "tvId", fv),
-     rv |-> ValMath(Cn("4", "u2")), rvid |-> Id("rvid" \o k, "rvId", fv)]
+     tv |-> ValMath(fv, Cn("3", "dimensionless")), tvid |-> Id("tvid" \o k, "tvId", fv),
+     rv |-> ValMath(fv, Cn("4", "u2")), rvid |-> Id("rvid" \o k, "rvId", fv)]
 ResetsOf(fv) == CASE fv.reset = "none" -> <<>>
                   [] fv.reset = "ordered" -> <<ResetRec("2", fv, "a")>>
                   [] fv.reset = "unordered" -> <<ResetRec("unset", fv, "a")>>
@@ -81,9 +84,9 @@ Comp(n, parent, fv, math, resets, inHierarchy) ==
      parent |-> parent, math |-> math, vars |-> VarsOf(n, fv), resets |-> resets]
 C1(fv) == St("c1", "compName", fv)
 CompsOf(fv) ==
-    <<Comp(C1(fv), NoneS, fv, EqMath("y", Cn("1", "u2")), ResetsOf(fv), fv.depth >= 2),
+    <<Comp(C1(fv), NoneS, fv, EqMath(fv, "y", Cn("1", "u2")), ResetsOf(fv), fv.depth >= 2),
       Comp("d1", NoneS, fv, NoneS, <<>>, FALSE)>>
-    \o (IF fv.depth >= 2 THEN <<Comp("c2", C1(fv), fv, EqMath("y", Ci("z")), <<>>, TRUE)>> ELSE <<>>)
+    \o (IF fv.depth >= 2 THEN <<Comp("c2", C1(fv), fv, EqMath(fv, "y", Ci("z")), <<>>, TRUE)>> ELSE <<>>)
     \o (IF fv.depth >= 3 THEN <<Comp("c3", "c2", fv, NoneS, <<>>, TRUE)>> ELSE <<>>)
     \o (IF fv.twin THEN <<Comp("c3", NoneS, fv, NoneS, <<>>, fv.depth >= 3)>> ELSE <<>>)
     \o (IF fv.imports \in {"comp", "both", "twoSources"}
